@@ -445,6 +445,14 @@ M("C13", "fsg benign: %.8g", FM, '"%s %d %d %g %s\\n", FSG_MODEL_TRANSITION_DECL
 
 JS = "src/jsgf.c"
 # ---- C05 ----------------------------------------------------------------------
+M("C05", "jsgf: a rule expanded once is linked into again", "src/jsgf.c", """            } else {
+                int rv;
+                /* Expand the subrule */""", """            } else if (subrule->entry > 0 && subrule->exit > 0 && gnode_next(gn) == NULL) {
+                jsgf_add_link(grammar, atom, lastnode, subrule->entry);
+                lastnode = subrule->exit;
+            } else {
+                int rv;
+                /* Expand the subrule */""", "GUARD.J5-recursion")
 M("C05", "jsgf: top-level result ignored again", JS, """    if (expand_rule(grammar, rule) == -1) {
         E_ERROR("Failed to expand rule %s\\n", rule->name);
         glist_free(grammar->rulestack);
@@ -1257,6 +1265,7 @@ M("C10", "set_jsgf_string: parse result not tested", "src/decoder.c", """    jsg
 M("C10", "benign: dict length test as > 1", "src/dict.c", "    return dict->ptr - line >= 2\n", "    return dict->ptr - line > 1\n", None, "benign")
 
 # ---- C09 ----------------------------------------------------------------------
+M("C09", "seg iter: walks the history block instead of an array of its own", "src/fsg_search.c", "    itor->hist = ckd_calloc(itor->n_hist, sizeof(*itor->hist));", "    itor->hist = (fsg_hist_entry_t **)fsgs->history->entries;", "OWN.iter-array")
 M("C09", "process: ENDED accepted again (revert)", "src/decoder.c", "    if (d->acmod->state == ACMOD_IDLE || d->acmod->state == ACMOD_ENDED) {", "    if (d->acmod->state == ACMOD_IDLE) {", "STATE.guards", first=True)
 M("C09", "start_utt: PROCESSING accepted (seed C09-2 core)", "src/decoder.c", "    if (d->acmod->state == ACMOD_STARTED || d->acmod->state == ACMOD_PROCESSING) {", "    if (d->acmod->state == ACMOD_STARTED) {", "STATE.guards")
 M("C09", "end_utt: refuses STARTED too", "src/decoder.c", "    if (d->acmod->state == ACMOD_ENDED || d->acmod->state == ACMOD_IDLE) {", "    if (d->acmod->state != ACMOD_PROCESSING) {", "STATE.guards")
